@@ -325,6 +325,40 @@ Proof.
   - apply on_default_pure. apply ro_q.
 Qed.
 
+(* scandir (/repo 75d0617): _scan_mount_points keeps whatever getinfo keeps *)
+Lemma scan_mount_points_inv (R : tstate -> tstate -> Prop) (Rf : forall a, R a a)
+      (Tr : forall a b c, R a b -> R b c -> R a c) :
+  (forall q, inv R (mount_getinfo q)) -> forall d l, inv R (scan_mount_points mount_getinfo d l).
+Proof.
+  intros Hg d l. induction l as [|i r IH]; cbn [scan_mount_points]; [apply inv_ret; exact Rf|].
+  apply (inv_bind R Tr).
+  - intro s. cbv beta. destruct (i_isdir i && is_mount_key s (forcedir (d ++ i_name i))); [apply Hg|apply Rf].
+  - intro x. apply (inv_bind R Tr); [exact IH|]. intro xs. apply inv_ret. exact Rf.
+Qed.
+
+Lemma mount_scandir_inv (R : tstate -> tstate -> Prop) (Rf : forall a, R a a)
+      (Tr : forall a b c, R a b -> R b c -> R a c) :
+  (forall i rel, inv R (on_mount i (mem_scandir rel))) -> (forall q, inv R (on_default (mem_scandir q))) ->
+  (forall q, inv R (mount_getinfo q)) -> forall p0, inv R (mount_scandir p0).
+Proof.
+  intros Hm Hd Hg p0 s. unfold mount_scandir.
+  destruct (mount_delegate (mounts_of s) p0) as [[[i rel]|]|e|k]; try apply Rf.
+  - apply Hm.
+  - destruct (t_mounts s) as [|m ms]; [apply Hd|].
+    assert (P : inv R (mbind (lift (mount_key p0)) (fun d => mbind (on_default (mem_scandir p0))
+                         (fun infos => scan_mount_points mount_getinfo d infos)))); [|apply P].
+    apply (inv_bind R Tr); [apply inv_lift; exact Rf|]. intro d.
+    apply (inv_bind R Tr); [apply Hd|]. intro infos. apply (scan_mount_points_inv R Rf Tr Hg).
+Qed.
+
+Lemma mount_scandir_pure p0 : pure (mount_scandir p0).
+Proof.
+  apply (mount_scandir_inv eq); [reflexivity|intros; congruence|..].
+  - intros i rel. apply on_mount_pure. apply ro_q.
+  - intro q. apply on_default_pure. apply ro_q.
+  - apply mount_getinfo_pure.
+Qed.
+
 Theorem mount_query_pure : forall o st, mount_query o = true -> fst (mount_run o st) = st.
 Proof.
   intros o st Q. symmetry. revert st.
@@ -335,6 +369,8 @@ Proof.
     try (apply route_pure; intro q; apply ro_q).
   - (* OGetinfo *)
     apply mount_getinfo_pure.
+  - (* OScandir *)
+    apply mount_scandir_pure.
   - (* OOpenread *)
     cbn [mount_query] in Q. destruct (mode_valid_bin mode) eqn:V; cbn [negb].
     + apply route_pure. intro q. apply ro_run_openread. rewrite V. exact Q.
@@ -342,7 +378,7 @@ Proof.
   - (* OExists *)
     apply (inv_b_exists eq Rf Tr). intro q. cbn [mount_low l_getinfo]. apply mount_getinfo_pure.
   - (* OIsempty *)
-    apply (inv_b_isempty eq Rf Tr). intro q. cbn [mount_low l_scandir]. apply route_pure. intro r. apply ro_q.
+    apply (inv_b_isempty eq Rf Tr). intro q. cbn [mount_low l_scandir]. apply mount_scandir_pure.
 Qed.
 Print Assumptions mount_query_pure.
 
@@ -352,6 +388,13 @@ Example mount_query_pure_ex :
   fst (mount_run (OOpenread (p "ab/x"%string) (p "r"%string)) ex_mount) = ex_mount /\
   fst (mount_run (OIsempty (p "own"%string)) ex_mount) = ex_mount.
 Proof. vm_compute. repeat split; reflexivity. Qed.
+
+(* scandir / isempty of a default-tree directory with mount points (the listing asks getinfo for each) change nothing *)
+Example mount_query_pure_scandir_ex :
+  fst (mount_run (OScandir (p "/"%string)) ex_mount) = ex_mount /\
+  fst (mount_run (OIsempty (p "/c"%string)) ex_mount) = ex_mount /\
+  fst (mount_run (OScandir (p "/a/s"%string)) ex_mount) = ex_mount.
+Proof. repeat split; apply mount_query_pure; reflexivity. Qed.
 
 (* getinfo of a mount point (renamed info) is a query like the others *)
 Example mount_query_pure_getinfo_ex :
@@ -465,6 +508,14 @@ Proof.
   - apply on_default_keeps.
 Qed.
 
+Lemma mount_scandir_keeps p0 : keeps (mount_scandir p0).
+Proof.
+  apply (mount_scandir_inv same_keys sk_refl sk_trans).
+  - intros i rel. apply on_mount_keeps.
+  - intro q. apply on_default_keeps.
+  - apply mount_getinfo_keeps.
+Qed.
+
 Lemma keeps_bind {A B} (m : M tstate A) (f : A -> M tstate B) : keeps m -> (forall a, keeps (f a)) -> keeps (mbind m f).
 Proof. apply inv_bind. exact sk_trans. Qed.
 
@@ -489,7 +540,7 @@ Lemma mount_removetree_keeps q : keeps (mount_removetree q).
 Proof.
   unfold mount_removetree. apply (inv_b_removetree same_keys sk_refl sk_trans).
   - apply mount_validatepath_keeps.
-  - intro r. apply route_keeps.
+  - apply mount_scandir_keeps.
   - intro r. apply route_keeps.
   - apply mount_removedir_keeps.
 Qed.
@@ -511,27 +562,28 @@ Proof.
   destruct o; cbn [mount_run]; try apply (inv_vmap same_keys sk_refl sk_trans);
     try apply route_keeps.
   - apply mount_getinfo_keeps.
+  - apply mount_scandir_keeps.
   - apply mount_makedirs_keeps.
   (* OAppendbytes: mode "ab" is valid, the call converts to a route and is closed above *)
   - apply (inv_b_create same_keys sk_refl sk_trans); intros;
-      first [apply mount_openwrite_keeps | apply mount_getinfo_keeps | apply route_keeps].
+      first [apply mount_openwrite_keeps | apply mount_getinfo_keeps | apply mount_scandir_keeps | apply route_keeps].
   - apply (inv_b_touch same_keys sk_refl sk_trans); intros;
-      first [apply mount_openwrite_keeps | apply mount_getinfo_keeps | apply route_keeps].
+      first [apply mount_openwrite_keeps | apply mount_getinfo_keeps | apply mount_scandir_keeps | apply route_keeps].
   - apply mount_openwrite_keeps.
   - destruct (negb (mode_valid_bin mode)); [intro s; apply sk_refl|apply route_keeps].
   - apply mount_removedir_keeps.
   - apply mount_removetree_keeps.
   - apply (inv_b_move same_keys sk_refl sk_trans); intros;
-      first [apply mount_validatepath_keeps | apply mount_openwrite_keeps | apply mount_getinfo_keeps | apply route_keeps].
+      first [apply mount_validatepath_keeps | apply mount_openwrite_keeps | apply mount_getinfo_keeps | apply mount_scandir_keeps | apply route_keeps].
   - apply mount_copy_keeps.
   - apply (inv_b_movedir2 same_keys sk_refl sk_trans); intros;
       first [apply mount_validatepath_keeps | apply mount_removetree_keeps | apply mount_makedirs_keeps
-            | apply mount_copy_keeps | apply mount_getinfo_keeps | apply route_keeps].
+            | apply mount_copy_keeps | apply mount_getinfo_keeps | apply mount_scandir_keeps | apply route_keeps].
   - apply (inv_b_copydir2 same_keys sk_refl sk_trans); intros;
       first [apply mount_validatepath_keeps | apply mount_makedirs_keeps
-            | apply mount_copy_keeps | apply mount_getinfo_keeps | apply route_keeps].
-  - apply (inv_b_exists same_keys sk_refl sk_trans); intros; first [apply mount_getinfo_keeps | apply route_keeps].
-  - apply (inv_b_isempty same_keys sk_refl sk_trans); intros; first [apply mount_getinfo_keeps | apply route_keeps].
+            | apply mount_copy_keeps | apply mount_getinfo_keeps | apply mount_scandir_keeps | apply route_keeps].
+  - apply (inv_b_exists same_keys sk_refl sk_trans); intros; first [apply mount_getinfo_keeps | apply mount_scandir_keeps | apply route_keeps].
+  - apply (inv_b_isempty same_keys sk_refl sk_trans); intros; first [apply mount_getinfo_keeps | apply mount_scandir_keeps | apply route_keeps].
 Qed.
 Print Assumptions mount_same_keys.
 
